@@ -99,6 +99,12 @@ DetSignBad(ev) ==
       \cup (IF m >= 1 /\ \A j \in 1..(m - 1) : Sign(ev.d, ev.ks[j], E.e).kind = "RSZeroError" THEN {}
             ELSE {"C04-retried-although-the-nonce-gave-a-signature"})
       \cup (IF m >= 1 /\ ev.out = Sign(ev.d, ev.ks[m], E.e) THEN {} ELSE {"C04-not-the-standard-signature-for-the-RFC-nonce"})
+      \* every generate_k call of the signing call (first attempt and retries) is made for this order, this private key,
+      \* this hash function, the caller's digest and the caller's extra entropy: the retried nonce is the NEXT candidate of
+      \* the same RFC 6979 stream (the values returned for these arguments are checked call by call in RFCTrace)
+      \cup (IF \A j \in 1..Len(ev.gargs) : /\ ev.gargs[j].order = N /\ ev.gargs[j].x = ev.d /\ ev.gargs[j].hashok
+                                             /\ ev.gargs[j].data = ev.given /\ ev.gargs[j].extra = ev.extra
+            THEN {} ELSE {"C04-nonce-generated-for-other-arguments-than-the-signing-call's"})
 
 Bad(ev) == CASE ev.op = "sign" -> SignBad(ev)
              [] ev.op = "detsign" -> DetSignBad(ev)
